@@ -56,7 +56,36 @@ def harvest_ints(relpaths):
         for n in ast.walk(tree):
             if isinstance(n, ast.Constant) and isinstance(n.value, int) and not isinstance(n.value, bool):
                 out.add(n.value)
+            elif isinstance(n, ast.BinOp):
+                v = _fold(n)            # constants written as expressions: 64 * 1024, 1 << 24, 2 ** 16 - 1
+                if v is not None and abs(v) < 1 << 40:
+                    out.add(v)
     return out
+
+
+def _fold(n):
+    if isinstance(n, ast.Constant) and isinstance(n.value, int) and not isinstance(n.value, bool):
+        return n.value
+    if isinstance(n, ast.BinOp):
+        a, b = _fold(n.left), _fold(n.right)
+        if a is None or b is None:
+            return None
+        try:
+            if isinstance(n.op, ast.Mult):
+                return a * b
+            if isinstance(n.op, ast.Add):
+                return a + b
+            if isinstance(n.op, ast.Sub):
+                return a - b
+            if isinstance(n.op, ast.LShift) and 0 <= b < 64:
+                return a << b
+            if isinstance(n.op, ast.Pow) and 0 <= b < 64 and abs(a) < 1 << 16:
+                return a ** b
+            if isinstance(n.op, ast.FloorDiv) and b:
+                return a // b
+        except Exception:
+            return None
+    return None
 
 
 def harvest_strs(relpaths):
